@@ -7,6 +7,7 @@ from concurrent.futures import ThreadPoolExecutor
 
 VERIF = os.path.dirname(os.path.dirname(os.path.abspath(__file__)))
 SRC = sys.argv[1] if len(sys.argv) > 1 else '/tmp/seed-out'
+PREFIX = sys.argv[2] if len(sys.argv) > 2 else ''
 PY = '/venv/bin/python'
 
 
@@ -16,7 +17,7 @@ def sh(cmd, **kw):
 
 def confirm(path):
     prop, var = path.split('/')[-2:]
-    sid = f"{prop}{var}"
+    sid = f"{PREFIX}{prop}{var}"
     tmp = tempfile.mkdtemp(prefix=f'mxsa-confirm-{sid}-', dir='/dev/shm')
     rec = {'id': sid, 'property': prop}
     try:
